@@ -14,16 +14,17 @@ def make_work(rng, tier):
     work = []
     for i in range(n):
         tables = sqlgen.make_db(rng, max_rows=rng.choice([6, 15, 30]))
-        g = SubGen(rng, tables, {"max_depth": 4, "groups": rng.chance(50), "setops": rng.chance(20), "ctes": True})
+        g = SubGen(rng, tables, {"max_depth": 4, "groups": rng.chance(50), "setops": rng.chance(20), "ctes": True,
+                               "views": i % 3 == 0, "lateral": i % 3 == 1})
         runs = []
         tries = 0
         while len(runs) < 4 and tries < 40:
             tries += 1
             q = g.query()
-            if not ({"correlated", "exists", "in_sub", "scalar_sub", "cte", "cte_def"} & q.classes):
+            if not ({"correlated", "exists", "in_sub", "scalar_sub", "cte", "cte_def", "view", "lateral"} & q.classes):
                 continue
             runs.append((q, {"partitions": rng.choice([1, 2, 4]), "enable_optimizer": bool(rng.below(2))}))
-        work.append({"id": "c09-%d" % i, "tables": tables, "runs": runs, "mode": "det", "det_partitions": 2,
+        work.append({"id": "c09-%d" % i, "tables": tables, "runs": runs, "prelude": list(g.prelude), "mode": "det", "det_partitions": 2,
                      "sched": {"kind": "fifo", "seed": 1}})
     return work
 
